@@ -126,56 +126,68 @@ def r3_writers(chk: Check):
 
 
 def r4_hold_for_whole_run(chk: Check):
+    from ..sched import lock_phase
+
     tree = chk.tree
     st = tree.func("scheduler.base", "Scheduler.aio_start")
     g = CFG(st.node)
     loc = chk.loc(st.module, st.node)
-    acq = g.call_nodes(lambda c: src(c).endswith(".lock().acquire()"))
+    done, sites, helper, loops = lock_phase(tree, g, st)
+    if not done:
+        raise Undecided("aio_start: the phase that takes the dependency (token) locks was not found")
     runs = g.call_nodes(lambda c: tail(c) == "aio_run")
     codes = g.call_nodes(lambda c: tail(c) == "aio_code")
-    chk.min_instances(len(acq), 1, "dependency lock acquisitions in aio_start")
     chk.require(len(runs) == 1 and len(codes) >= 1, chk.fkey(st, "run and wait"), "aio_start must run the job and wait for its exit code", loc)
     locks_with = [a for a in ast.walk(st.node) if isinstance(a, ast.With) and any(src(i.context_expr) == "Locks()" for i in a.items)]
     chk.require(len(locks_with) == 1, chk.fkey(st, "with Locks()"), "aio_start must hold dependency locks in a `with Locks()` block", loc)
     if len(locks_with) == 1 and runs:
         w = locks_with[0]
-        for n, c in acq:
-            chk.require(any(a is w for a in _anc(c)), chk.fkey(st, "acquire inside Locks"), "a dependency lock is acquired outside the `with Locks()` block", chk.loc(st.module, c))
-            chk.require(g.dominates(n, runs[0][0]) or any(g.dominates(b, runs[0][0]) for b in g.live if b.kind == "branch" and b.extra["polarity"] == "done" and b.extra["test"].kind == "for" and any(x is c for x in ast.walk(b.extra["test"].ast))),
-                        chk.fkey(st, "acquire before run"), "tokens are acquired after the job was started", chk.loc(st.module, c))
+        # the locking phase (inline loop or helper call) lies inside the Locks block and completes before the run
+        phase_asts = [lp.ast for lp in loops] if loops else [c for n in done for c in n.calls() if helper is not None and dotted(c.func) == f"self.{helper.node.name}"]
+        for a in phase_asts:
+            chk.require(any(x is w for x in _anc(a)), chk.fkey(st, "locking inside Locks"), "dependency locks are taken outside the `with Locks()` block", chk.loc(st.module, a))
+        chk.require(any(g.dominates(b, runs[0][0]) for b in done), chk.fkey(st, "acquire before run"), "tokens are acquired after the job was started", loc)
         for n, c in codes:
             chk.require(any(a is w for a in _anc(c)), chk.fkey(st, "wait inside Locks"),
                         "the wait for the job's exit is outside the `with Locks()` block: the tokens would be released while the job is still running", chk.loc(st.module, c))
-        # LockError path does not reach aio_run
         for h in [x for x in ast.walk(st.node) if isinstance(x, ast.ExceptHandler) and x.type is not None and "LockError" in src(x.type)]:
             hn = [n for n in g.live if n.kind == "except" and n.ast is h]
             for x in hn:
                 chk.require(runs[0][0].id not in g.reachable(x), chk.fkey(st, "LockError never runs"), "after a failed token acquisition the job can still be started", chk.loc(st.module, h))
+    chk.count("dependency_lock_sites", len(sites))
 
 
 def r5_tokens_under_job_lock(chk: Check):
+    from ..sched import lock_phase
+
     tree = chk.tree
     st = tree.func("scheduler.base", "Scheduler.aio_start")
-    acq = [c for c in fn_calls(st.node) if src(c).endswith(".lock().acquire()")]
+    g = CFG(st.node)
+    done, sites, helper, loops = lock_phase(tree, g, st)
+    if not done:
+        raise Undecided("aio_start: the phase that takes the dependency (token) locks was not found")
+    phase_asts = [lp.ast for lp in loops] if loops else [c for n in done for c in n.calls() if helper is not None and dotted(c.func) == f"self.{helper.node.name}"]
     runs = [c for c in fn_calls(st.node) if tail(c) == "aio_run"]
+
     def joblock(c):
         for a in _anc(c):
             if isinstance(a, ast.AsyncWith) and any("lock(job.lockpath)" in src(i.context_expr) for i in a.items):
                 return a
         return None
-    for c in acq:
+
+    for c in phase_asts:
         chk.require(joblock(c) is not None, chk.fkey(st, "tokens under job lock"),
                     "dependency (token) locks are taken outside the job lock: another process's token watcher takes the job lock, finds no pid file yet, "
                     "and reclaims the live holding -- two jobs then run under a total of 1", chk.loc(st.module, c))
     for c in runs:
         jl = joblock(c)
-        chk.require(jl is not None and all(joblock(a) is jl for a in acq), chk.fkey(st, "same job lock for tokens and spawn"),
+        chk.require(jl is not None and all(joblock(a) is jl for a in phase_asts), chk.fkey(st, "same job lock for tokens and spawn"),
                     "token acquisition and process spawn (pid file) must be inside the same job-lock block", chk.loc(st.module, c))
-    chk.min_instances(len(acq) + len(runs), 2, "token acquisition and spawn sites")
+    chk.min_instances(len(phase_asts) + len(runs), 2, "token acquisition and spawn sites")
     # the watcher side: TokenFile.watch takes the job lock before looking for the pid file
     w = tree.func("tokens", "TokenFile.watch.run")
-    g = CFG(w.node)
-    pid = [n for n in g.live if n.kind == "test" and "pidpath.is_file()" in src(n.ast)]
+    gw = CFG(w.node)
+    pid = [n for n in gw.live if n.kind == "test" and "pidpath.is_file()" in src(n.ast)]
     ok = bool(pid) and all(any(isinstance(a, ast.With) and any("InterProcessLock(lockpath)" in src(i.context_expr) for i in a.items) for a in _anc(p.ast)) for p in pid)
     chk.require(ok, chk.fkey(w, "watcher reads pid under job lock"), "the token watcher must look for the pid file while holding the job lock", chk.loc(w.module, w.node))
 
